@@ -33,6 +33,8 @@ OPEN_STATEMENTS = [
     'CubicFermionicSimulationGate with general weights: proved are generator = JW image of the extracted components and the '
     'characteristic equation of the 3x3 block (cubic_generator_is_jw, cubic_block_characteristic); the eigenvalues themselves '
     '(numpy.linalg.eigh, irrational) and hence the unitary are covered by the oracle exp(-i t G) only',
+    'DoubleExcitationGate: generator, eigen-components and spectral form are proved (double_excitation_spectral); quartic gate: '
+    'generator = JW image (quartic_generator_is_jw); the 16x16 product of its three rotations is not proved',
     'QuarticFermionicSimulationGate._decompose_ (numerical matrix square root of a product of expm) and '
     'DoubleExcitationGate._decompose_ (Z**(1/8): entries in Q(zeta_16), outside the Gaussian rationals the Model computes with) '
     'cannot be stated as matrix identities over GQ at rational points; oracle decomposition == gate only',
@@ -360,6 +362,12 @@ def gates_stream(ctx, lad):
                 cirq, cirq.decompose_once(of.DoubleExcitationGate(exponent=t)(*qs)), qs))
             if ok:
                 oracle(case, 'decomposition: DoubleExcitation', D, U, up_to_phase=True)
+    # DoubleExcitation: Model generator vs the fermionic operator -(a2^ a3^ a1 a0 + h.c.) through the Spec ladders
+    case = {'gate': 'DoubleExcitation generator'}
+    st.case(case)
+    Gx = lad.get(4, 2, 1) @ lad.get(4, 3, 1) @ lad.get(4, 1, 0) @ lad.get(4, 0, 0)
+    cmp_later(case, 'DoubleExcitation generator (Model) vs -(a2^ a3^ a1 a0 + h.c.)', -(Gx + Gx.conj().T),
+              model('doubleExcitationGenerator'))
     # FSWAP itself
     case = {'gate': 'FSWAP'}
     st.case(case)
